@@ -1897,6 +1897,22 @@ func (c *Ctx) registryStable(rule string) {
 				if fname != "Events" {
 					grows = HasOrigin(c.rawOrigins(st.Val), func(o Origin) bool { return o.Kind == "field" && strings.HasSuffix(o.Name, fname) })
 				}
+				// ... or the registry is known to be empty (nil) at this point: a
+				// zero-value Events allocating its map on first use drops nothing
+				if !grows {
+					grows = HasFact(FactsAtInstr(st), func(f Fact) bool {
+						rel := f.Rel()
+						if rel.Op != token.EQL || !IsNilConst(rel.Y) {
+							return false
+						}
+						u, ok := rel.X.(*ssa.UnOp)
+						if !ok || u.Op != token.MUL {
+							return false
+						}
+						fa2, ok := u.X.(*ssa.FieldAddr)
+						return ok && fa2.X == fa.X && fieldName(fa2) == fname
+					})
+				}
 				r.Check(grows, rule, name, "store "+fname, posf(c, st), "the registry only grows", "the event registry of a live instance is replaced ("+fname+" = "+SafeString(st.Val)+"): handlers the modules registered earlier — lock and confirm vetoes, the 2FA hijack, remember-token revocation — are silently dropped while their routes stay mounted")
 			}
 		}
